@@ -44,6 +44,7 @@ def run_job(args):
                  witness_cap=opts.get("witnesses", 2), index_concretize_limit=opts.get("index_concretize_limit", 0),
                  path_seconds=opts.get("path_seconds", 300))
     eng.cfg = cfg
+    eng.assume_feasible = bool(opts.get("assume_feasible"))
     if os.environ.get("PVX_DUMP_DIR"):
         eng.dump_dir = os.environ["PVX_DUMP_DIR"]
 
